@@ -99,11 +99,11 @@ func checkC15(c *Ctx) error {
 	n2 := c15Bodies(2)
 	per2, n3count, few := 1, 30, 1
 	if !c.Quick() {
-		per2, n3count, few = 12, 600, 0
+		per2, n3count, few = 5, 250, 0
 	}
 	budget, nl := 1500, 3
 	if !c.Quick() {
-		budget, nl = 20000, 5
+		budget, nl = 6000, 5
 	}
 	for _, b0 := range n2 {
 		for k, tries := 0, 0; k < per2 && tries < 200; tries++ {
